@@ -115,6 +115,40 @@ def run(prop, tier, seed, known):
                         want_c = (cem(rl_, el_), max(cem(v, el_) for v in variations))
                         if abs(got_c[0] - want_c[0]) > 1e-9 or abs(got_c[1] - want_c[1]) > 1e-9:
                             fails.append('beat.cemgil(sigma=%s) = %s, its definition gives %s (%s, period %s)' % (sig, tuple(float(x) for x in got_c), want_c, kind, period))
+                # C04: information gain per its definition, on exact lattices where both sequences span the same stretch of time: every
+                # beat's error relative to the nearest beat of the other sequence, as a fraction of the inter-beat interval on that side,
+                # in (-1/2, 1/2]; `bins` uniform bins; (log2(bins) - larger of the two entropies) / log2(bins)
+                def entropy_(rb, qb, nb):
+                    errs = []
+                    for x in qb:
+                        j = min(range(len(rb)), key=lambda t: (abs(x - rb[t]), t))
+                        ae = x - rb[j]
+                        if j == len(rb) - 1:
+                            iv_ = rb[-1] - rb[-2]
+                        elif ae < 0:
+                            iv_ = rb[j] - rb[j - 1]
+                        else:
+                            iv_ = rb[j + 1] - rb[j]
+                        er = ae / iv_
+                        if er <= -0.5:
+                            er += 1.0
+                        errs.append(er)
+                    counts = [0] * nb
+                    for er in errs:
+                        k_ = min(int(math.floor((er + 0.5) * nb)), nb - 1)
+                        counts[k_] += 1
+                    tot = float(sum(counts))
+                    return -sum((c / tot) * math.log2(c / tot) for c in counts if c)
+                gN = rng.randint(6, 12)
+                gref = [float(t) for t in range(gN)]
+                gest = sorted(set(gref[:1] + gref[-1:] + [t for t in gref[1:-1] if rng.random() < 0.7]
+                                  + [rng.randint(0, gN - 2) + rng.choice([0.5, 0.5, 0.25, 65 / 128.0, 63 / 128.0, 0.125, 0.75]) for _ in range(rng.randint(1, 4))]))
+                nb_ = rng.choice([41, 21, 11])
+                ig = guard('beat.information_gain', lambda: beat.information_gain(np.array(gref) + 6.0, np.array(gest) + 6.0, bins=nb_))
+                if ig is not None and len(gest) > 1:
+                    want_ig = (math.log2(nb_) - max(entropy_(gref, gest, nb_), entropy_(gest, gref, nb_))) / math.log2(nb_)
+                    if abs(ig - want_ig) > 1e-9:
+                        fails.append('beat.information_gain(bins=%d) = %r, its definition gives %r (ref 0..%d, est %s)' % (nb_, float(ig), want_ig, gN - 1, gest))
                 f1 = beat.f_measure(ref, est)
                 f2 = beat.f_measure(est, ref) if len(est) else f1
                 if abs(f1 - f2) > 1e-12:
@@ -272,6 +306,18 @@ def run(prop, tier, seed, known):
                 for a_, b_ in (('P_est', 'R_est'), ('P_occ.75', 'R_occ.75'), ('P_occ.5', 'R_occ.5'), ('P_3', 'R_3')):
                     if abs(pd[a_] - sd[b_]) > 1e-9 or abs(pd[b_] - sd[a_]) > 1e-9:
                         fails.append('pattern swap with a repeated event: %s=%r vs %s=%r' % (a_, pd[a_], b_, sd[b_]))
+            # swap when the estimate holds an exact copy of a reference pattern followed by a near variant of it
+            var = [[(t, p) for t, p in occ] for occ in rp[0]]
+            var[0] = var[0][:-1] + [(var[0][-1][0] + 1.0, var[0][-1][1])] if len(var[0]) > 1 else var[0] + [(var[0][0][0] + 1.0, var[0][0][1])]
+            ev_ = [list(map(list, p)) for p in rp] + [var]
+            a1 = guard('pattern.evaluate (copy + variant)', lambda: pattern.evaluate(rp, ev_))
+            a2 = guard('pattern.evaluate (copy + variant, swapped)', lambda: pattern.evaluate(ev_, rp))
+            if a1 is not None and a2 is not None:
+                for a_, b_ in (('P_est', 'R_est'), ('P_occ.75', 'R_occ.75'), ('P_3', 'R_3')):
+                    if abs(a1[a_] - a2[b_]) > 1e-9 or abs(a1[b_] - a2[a_]) > 1e-9:
+                        fails.append('pattern swap (estimate = copy of the reference plus a variant): %s=%r vs %s=%r' % (a_, a1[a_], b_, a2[b_]))
+                if abs(a1['F_3'] - a2['F_3']) > 1e-9:
+                    fails.append('pattern swap (estimate = copy of the reference plus a variant): F_3 %r vs %r' % (a1['F_3'], a2['F_3']))
             # C04: the first-n scores are the establishment recall / three-layer precision of the first n estimated patterns
             many = ep + [pat() for _ in range(2)]
             for nn in (1, 2, 3):
